@@ -89,6 +89,15 @@ def applyOp (env : Env) (t : Tmpl) (rows : List RowV) (ts : List String) : StepR
        | some r => lift (importAtKeyWith (importVal env) r k x) fun r' e => .ok (rows.set i r') e (some i)
        | none => .bad "bad row index"
      | _, _, _ => .bad "bad iak")
+  | "imp2" :: i :: rest =>
+    -- Row.Import handed a slice or a Go map
+    (match i.toNat?.bind (fun i => rows[i]?.map fun r => (i, r)), Dyn.parse? (" ".intercalate rest) with
+     | some (i, r), some x =>
+       (match importVal env (.row (Members.ofList r)) x with
+        | .ok (.row ms, e) => .ok (rows.set i ms.toList) e (some i)
+        | .err .ext => .abstain
+        | _ => .bad "imp2: not a row")
+     | _, _ => .bad "bad imp2")
   | ["irow", i, j] =>
     -- Row.Import handed another row
     (match i.toNat?.bind (fun i => rows[i]?.map fun r => (i, r)), j.toNat?.bind (fun j => rows[j]?) with
